@@ -361,18 +361,28 @@ impl TryFrom<&syn::Type> for RustType {
                     }
                     _ => Vec::default(),
                 };
+                // A container written without (enough) type arguments is not something we can translate.
+                let missing_parameter = || RustTypeParseError::UnsupportedType(vec![id.clone()]);
                 match id.as_str() {
                     "Vec" => Self::Special(SpecialRustType::Vec(
-                        parameters.into_iter().next().unwrap().into(),
+                        parameters
+                            .into_iter()
+                            .next()
+                            .ok_or_else(missing_parameter)?
+                            .into(),
                     )),
                     "Option" => Self::Special(SpecialRustType::Option(
-                        parameters.into_iter().next().unwrap().into(),
+                        parameters
+                            .into_iter()
+                            .next()
+                            .ok_or_else(missing_parameter)?
+                            .into(),
                     )),
                     "HashMap" => {
                         let mut params = parameters.into_iter();
                         Self::Special(SpecialRustType::HashMap(
-                            params.next().unwrap().into(),
-                            params.next().unwrap().into(),
+                            params.next().ok_or_else(missing_parameter)?.into(),
+                            params.next().ok_or_else(missing_parameter)?.into(),
                         ))
                     }
                     "OffsetDateTime" => Self::Special(SpecialRustType::DateTime),
@@ -380,7 +390,10 @@ impl TryFrom<&syn::Type> for RustType {
                     // These smart pointers can be treated as their inner type since serde can handle it
                     // See impls of serde::Deserialize
                     "Box" | "Weak" | "Arc" | "Rc" | "Cow" | "ArcWeak" | "RcWeak" | "Cell"
-                    | "Mutex" | "RefCell" | "RwLock" => parameters.into_iter().next().unwrap(),
+                    | "Mutex" | "RefCell" | "RwLock" => parameters
+                        .into_iter()
+                        .next()
+                        .ok_or_else(missing_parameter)?,
                     "bool" => Self::Special(SpecialRustType::Bool),
                     "char" => Self::Special(SpecialRustType::Char),
                     "u8" => Self::Special(SpecialRustType::U8),
